@@ -888,6 +888,18 @@ def corpus_case(ctx, scratch, s, hw, add_comments, commented):
         for sig, detail in wv:
             ctx.violation(sig, {"level": "worker", "hw": s["label"], "old_text": ot, "new_text": nt,
                                 "add_comments": add_comments, "comment_rulebook": commented}, detail)
+    if not viol and not wv and not add_comments and not commented:
+        # the same two configurations saved as fragments: every line shifted to the right by the same amount (a section cut
+        # out of a larger file), and with an empty first line on top of that - for both front ends it is the same configuration
+        for how, f in (("shifted", lambda t: "".join(("  " + ln if ln.strip() else ln) for ln in t.splitlines(True))),
+                       ("blank-first+shifted", lambda t: "\n" + "".join(("  " + ln if ln.strip() else ln) for ln in t.splitlines(True)))):
+            ot2, nt2 = f(ot), f(nt)
+            wv2, wlab2 = workers(hw, ot2, nt2, False, scratch)
+            ctx.evals += 4
+            ctx.outcomes["%s(%s):%s" % (part, how, wlab2)] += 1
+            for sig, detail in wv2:
+                ctx.violation(dict(sig, text=how), {"level": "worker", "hw": s["label"], "old_text": ot2, "new_text": nt2,
+                                                    "add_comments": False, "comment_rulebook": False}, detail)
 
 
 def run_cross(block, ctx):
